@@ -21,6 +21,7 @@ std::string eval_points(Chooser& ch, Stats* st, const TableSpec& s, const Table&
   uint64_t sumorder = 0;
   for (auto& d : s.dims) sumorder += d.order;
   int npts = 6;
+  auto ev = t.template get_evaluator<Float>();
   js << ",\"precision\":" << jstr(is_float ? "float" : "double") << ",\"points\":[";
   std::string fail;
   for (int p = 0; p < npts; p++) {
@@ -70,6 +71,13 @@ std::string eval_points(Chooser& ch, Stats* st, const TableSpec& s, const Table&
       fail = m.str(); break;
     }
     if (!same_bits(v0, v1) && !(std::isnan(v0) && std::isnan(v1))) { fail = "evaluation depends on never-written stack memory (results differ between scribble patterns)"; break; }
+    // the evaluator object of this precision (its kernels are selected by dimension count and order pattern)
+    double ve = ev.ndsplineeval(x.data(), centers.data(), 0);
+    if (!(fabs(ve - (double)ref.v) <= tol)) {
+      std::ostringstream m;
+      m << "value through the evaluator object differs from the B-spline sum at point #" << p << ": evaluator=" << jnum(ve) << " ref=" << jnum((double)ref.v) << " magnitude=" << jnum((double)ref.m) << " tol=" << jnum(tol);
+      fail = m.str(); break;
+    }
     if (s.coeff_class == "ones" && in_support) {
       if (!(fabs(v0 - 1.0) <= kappa * eps + tiny)) { fail = "all-ones table does not evaluate to 1 in the fully supported region: " + jnum(v0); break; }
       if (st) st->label("allones_supported_checked");
@@ -85,7 +93,12 @@ CaseResult body_eval(Chooser& ch, Stats* st) {
   TableSpec s;
   std::unique_ptr<Table> t;
   std::string producer;
-  std::string err = produce_table(ch, so, s, t, producer);
+  std::string err;
+  if (gen_version() >= 2 && ch.coin(1, 4)) {  // order patterns with their own specialised evaluation kernels
+    s = gen_pattern_spec(ch); producer = "P1_read"; t.reset(new Table());
+    { QuietStderr q; try { build_p1(*t, s); } catch (std::exception& e) { err = e.what(); } }
+    if (st) st->label("orders:dispatch_pattern");
+  } else err = produce_table(ch, so, s, t, producer);
   if (!err.empty()) { r.fail = err; r.json = "{\"spec\":" + s.json() + "}"; return r; }
   bool use_float = ch.coin(1, 2);
   std::ostringstream js;
